@@ -127,6 +127,33 @@ func reprEvent(c *ctx, typ string, val []byte) M {
 	sc := func(x interface{}) func(p interface{}) error {
 		return func(p interface{}) error { return p.(interface{ Scan(interface{}) error }).Scan(x) }
 	}
+	// the same decoders into a variable that already holds another identifier (a struct field or loop variable re-used)
+	tryUsed := func(name string, f func(p interface{}) error) {
+		p := mk()
+		old := c.bytesN(16)
+		if c.rnd.Intn(3) == 0 {
+			for i := range old {
+				old[i] = 0xff
+			}
+		}
+		switch t := p.(type) {
+		case *lorawan.EUI64:
+			copy(t[:], old)
+		case *lorawan.DevAddr:
+			copy(t[:], old)
+		case *lorawan.NetID:
+			copy(t[:], old)
+		case *lorawan.AES128Key:
+			copy(t[:], old)
+		}
+		res, _ := observeFast(func() error { return f(p) })
+		ev[name+"_err"] = res
+		ev[name] = dump(p)
+	}
+	tryUsed("untext_used", ut(txt))
+	tryUsed("untext0x_used", ut(append([]byte("0x"), txt...)))
+	tryUsed("unbin_used", ub(bin))
+	tryUsed("scan_used", sc(append([]byte{}, val...)))
 	try("untext", ut(txt))
 	try("untext0x", ut(append([]byte("0x"), txt...)))
 	try("untextupper", ut([]byte(strings.ToUpper(string(txt)))))
